@@ -57,14 +57,21 @@ class DictObj(object):
         dom = fresh(name + '_dom', ValSet)
         val = fresh(name + '_val', ValIntMap if vsort == 'Int' else ValMap)
         size = fresh(name + '_size', INT)
-        return DictObj(dom, val, size, vsort, cls, {}, role)
+        d = DictObj(dom, val, size, vsort, cls, {}, role)
+        d.wit = fresh(name + '_wit', Val)
+        return d
 
     def facts(self):
-        """assumed well-formedness of a havocked dict (finite map, hashable keys)"""
+        """assumed well-formedness of a havocked dict (finite map, hashable keys; a non-empty
+        dict has some key: `wit` is its Skolem witness)"""
         x = _x()
-        return [self.size >= 0,
-                forall([x], z3.Implies(self.dom[x], z3.And(self.size >= 1, Hashable(x))),
-                          patterns=[self.dom[x]])]
+        out = [self.size >= 0,
+               forall([x], z3.Implies(self.dom[x], z3.And(self.size >= 1, Hashable(x))),
+                      patterns=[self.dom[x]])]
+        wit = getattr(self, 'wit', None)
+        if wit is not None:
+            out.append(z3.Implies(self.size >= 1, self.dom[wit]))
+        return out
 
     def havoc(self, I, st):
         d = DictObj.symbolic('hv', self.vsort, self.cls, self.role)
